@@ -82,6 +82,29 @@ func stackVerdict(block string) (state, frame string, blockedOutsideTimer bool) 
 	if frame == "" {
 		return state, frame, false
 	}
+	// The wait must happen DIRECTLY in a fasthttp function: skip the frames of the primitive itself
+	// (runtime, sync.Mutex/RWMutex/Cond/WaitGroup); if the next frame is not fasthttp's (e.g. sync.Pool's
+	// global mutex taken inside Pool.Put on the way out of the call), the goroutine is not blocked by fasthttp.
+	direct := false
+	for _, l := range lines[1:] {
+		if strings.HasPrefix(l, "\t") {
+			continue
+		}
+		if strings.HasPrefix(l, "runtime.") || strings.HasPrefix(l, "internal/sync.") || strings.HasPrefix(l, "internal/runtime") ||
+			strings.HasPrefix(l, "sync.runtime_") || strings.HasPrefix(l, "sync.(*Mutex)") || strings.HasPrefix(l, "sync.(*RWMutex)") ||
+			strings.HasPrefix(l, "sync.(*Cond)") || strings.HasPrefix(l, "sync.(*WaitGroup)") {
+			continue
+		}
+		direct = strings.Contains(l, "valyala/fasthttp.")
+		break
+	}
+	if !direct {
+		return state, frame, false
+	}
+	if strings.Contains(frame, "releasePipelineWork") {
+		// on the way out of the call: the timer (or the response) has already ended the wait
+		return state, frame, false
+	}
 	switch state {
 	case "chan send", "chan receive", "sync.Mutex.Lock", "sync.RWMutex.Lock", "sync.RWMutex.RLock", "sync.Cond.Wait", "sync.WaitGroup.Wait":
 		return state, frame, true
